@@ -50,7 +50,8 @@ func ReadDuty(d *attester.Duty) Duty {
 // (MakeDuty(h.Runs[i].Duty) otherwise) and is not made at all when skip[i] (its result is "noduty":
 // there was no duty object to give).  prepare, when not nil, runs inside the bubble before the
 // service is built and returns both (so that the duties are made by the code under test in the same
-// bubble).
+// bubble).  The signer and the submitter are those of c04_overlap.go (they sign what they are given at
+// call time and check that their arguments are unchanged when the call returns).
 func RunHistoryWithDuties(t *testing.T, h History, prepare func(ctx context.Context) (given []*attester.Duty, skip []bool)) Observed {
 	logOnce.Do(func() { zerologger.Logger = zerologger.Output(io.Discard) })
 	var obs Observed
@@ -74,9 +75,9 @@ func RunHistoryWithDuties(t *testing.T, h History, prepare func(ctx context.Cont
 			standardattester.WithChainTime(mocks.NewChainTime(h.SPE)),
 			standardattester.WithSpecProvider(specProvider{h.SPE}),
 			standardattester.WithAttestationDataProvider(e),
-			standardattester.WithAttestationsSubmitter(e),
+			standardattester.WithAttestationsSubmitter(&env2{e}), // c04_overlap.go: arguments are looked at again at return
 			standardattester.WithValidatingAccountsProvider(e),
-			standardattester.WithBeaconAttestationsSigner(e),
+			standardattester.WithBeaconAttestationsSigner(&env2{e}),
 		)
 		if err != nil {
 			obs.Problem = "constructor: " + err.Error()
